@@ -313,6 +313,7 @@ func runC14live(t *vf.T, c c14live) {
 	}
 	t.Count("capacities_checked_against_max_load_share", 1)
 	maxNeed, killed := 0, 0
+	killedAddrs := map[string]bool{}
 	recvAll := func(d time.Duration) {
 		for i := 0; i < len(pending); {
 			p := pending[i]
@@ -389,8 +390,9 @@ func runC14live(t *vf.T, c c14live) {
 			}
 		case "kill":
 			if len(granted) > 0 {
-				if sys.Kill(granted[ev.Pick%len(granted)].m.Machine()) {
+				if km := granted[ev.Pick%len(granted)].m; sys.Kill(km.Machine()) {
 					killed++
+					killedAddrs[km.Addr()] = true
 					t.Count("machines_killed", 1)
 				}
 			}
@@ -429,6 +431,36 @@ func runC14live(t *vf.T, c c14live) {
 	}
 	if !ok {
 		t.Violate(sig+" not-quiescent", fmt.Sprintf("every granted proc was returned and every other request cancelled, but the manager still shows need=%d queue=%d machines=%+v", snap.Need, snap.QueueLen, snap.Machines))
+	}
+	// stopped machines receive no new work: a machine the script killed must leave the manager's
+	// state altogether (whatever queue it was in when it stopped: healthy or on probation). The wait is
+	// generous and ends as soon as the machine is gone; every poke makes the manager's loop turn.
+	for addr := range killedAddrs {
+		gone := false
+		var health string
+		for i := 0; i < 3000 && !gone; i++ {
+			w.mu.Lock()
+			gone = true
+			for _, s := range w.lastSnap {
+				for _, m := range s.Machines {
+					if m.Addr == addr {
+						gone, health = false, m.Health
+					}
+				}
+			}
+			w.mu.Unlock()
+			if !gone {
+				time.Sleep(10 * time.Millisecond)
+				if i%20 == 19 {
+					mgr.Offer(0, 1).Cancel()
+				}
+			}
+		}
+		if !gone {
+			t.Violate(sig+" stopped-machine-still-managed health="+health, fmt.Sprintf("machine %s was killed (it is stopped) but the manager still keeps it, in state %q, 30 s and many loop turns later: it counts towards capacity and can be handed work again", addr, health))
+		} else {
+			t.Count("killed_machines_seen_leaving_the_manager", 1)
+		}
 	}
 	// no more machines than demand and the parallelism limit justify
 	w.mu.Lock()
@@ -574,6 +606,19 @@ func runC14(r *vf.Runner) {
 			{Op: "offer", Procs: mp - 1}, {Op: "recv"}, {Op: "offer", Procs: mp - 1, Prio: 1}, {Op: "offer", Procs: 0}, {Op: "pause"},
 			{Op: "done-ok", Pick: 0}, {Op: "pause"}, {Op: "cancel-blind", Pick: 0}, {Op: "pause"}, {Op: "cancel-blind", Pick: 0}, {Op: "offer", Procs: mp - 1}, {Op: "recv"}}}
 		r.Case(c, func(t *vf.T) { runC14live(t, c) })
+	}
+	// fixed: a machine that stops in every situation the manager distinguishes: healthy and idle,
+	// healthy and loaded, on probation (a task on it ended with a transport error) with and without
+	// further tasks
+	for _, mp := range []int{2, 4} {
+		for _, evs := range [][]c14ev{
+			{{Op: "offer"}, {Op: "offer"}, {Op: "recv"}, {Op: "done-transport", Pick: 0}, {Op: "pause"}, {Op: "kill", Pick: 0}, {Op: "pause"}, {Op: "offer"}, {Op: "recv"}},
+			{{Op: "offer"}, {Op: "offer"}, {Op: "recv"}, {Op: "kill", Pick: 0}, {Op: "pause"}, {Op: "offer"}, {Op: "recv"}},
+			{{Op: "offer"}, {Op: "offer"}, {Op: "recv"}, {Op: "done-transport", Pick: 1}, {Op: "done-remote", Pick: 0}, {Op: "offer"}, {Op: "recv"}, {Op: "kill", Pick: 0}, {Op: "pause"}, {Op: "offer"}, {Op: "recv"}},
+		} {
+			c := c14live{Kind: "live", MachProcs: mp, MaxLoad: 1, MaxP: mp, Events: evs}
+			r.Case(c, func(t *vf.T) { runC14live(t, c) })
+		}
 	}
 	for i := 0; i < n; i++ {
 		c := c14live{Kind: "live", MachProcs: rnd.Pick(1, 2, 3, 4), MaxLoad: []float64{0.3, 0.5, 0.9, 0.95, 1}[rnd.Intn(5)], MaxP: rnd.Pick(1, 3, 8)}
